@@ -29,6 +29,11 @@ def base_world(profile='pubsub', mode='sync'):
     return w
 
 
+# every complete packet that precedes a packet with a 2-byte remaining length has a VISIBLE effect when handled twice
+LEN2 = [rc.enc_publish('in/a', b'a', 1, False, False, 11), rc.enc_publish('in/q1', b'p' * 125, 1, False, False, 12),
+        rc.enc_ack('PUBREL', 9), rc.enc_publish('in/q0', b'q' * 121, 0, False, True), rc.enc_ack('PUBACK', 1)]
+
+
 def packets_all(payload=b'pl'):
     return [rc.enc_connack(False, 0),
             rc.enc_publish('in/q0', payload, 0, False, True),
@@ -276,7 +281,7 @@ def long_cases(quick):
     out = []
     for size, label in ((16384, 'len3'),) + (((2097152, 'len4'),)):
         big = rc.enc_publish('big', bytes(size), 1, False, False, 21)
-        pkts = [rc.enc_ack('PUBACK', 1), big, rc.enc_pingresp()]
+        pkts = [rc.enc_publish('in/pre', b'x', 0), big, rc.enc_pingresp()]
         data_len = sum(len(p) for p in pkts)
         b0, b1 = len(pkts[0]), len(pkts[0]) + len(big)
         region = sorted(set(list(range(1, b0 + 9)) + list(range(b1 - 2, min(data_len, b1 + 2))) + [b0 + 100, b1 - 100]))
@@ -321,6 +326,61 @@ def _long(args):
             if len(bad) > 2:
                 break
     return label, hi - lo, bad
+
+
+CONNECTING_BASE = (('connect', 0, True, 0, 4), ('pub', 0, 1))
+CONNECTING_STREAM = [rc.enc_connack(False, 0), rc.enc_ack('PUBACK', 1), rc.enc_publish('a', b'x', 0)]
+
+
+def _connecting_deliver(chunks):
+    from ..world import World
+    w = World(dict(profile='pubsub', mode='sync'))
+    for ev in CONNECTING_BASE:
+        w.apply(ev)
+    w.base_mark = len(w.obs)
+    for c in chunks:
+        w.apply(('raw', 0, c))
+    return w
+
+
+def _connecting_brute(args):
+    lo, hi = args
+    data = b''.join(CONNECTING_STREAM)
+    n = len(data)
+    ref = _connecting_deliver(CONNECTING_STREAM)
+    ref_obs, ref_key = observable(ref), final_key(ref)
+    bad = []
+    for mask in range(lo, hi):
+        cuts = [i + 1 for i in range(n - 1) if mask >> i & 1] + [n]
+        w = _connecting_deliver([data[a:b] for a, b in zip([0] + cuts[:-1], cuts)])
+        if observable(w) != ref_obs or final_key(w) != ref_key:
+            bad.append(cuts)
+            if len(bad) > 2:
+                break
+    return hi - lo, bad
+
+
+def handshake_stream(ctx, pool):
+    """The broker's first segment(s): CONNACK followed at once by more packets (a resumed session, or the PUBACK of a
+    message published before CONNACK), from the CONNECTING state, in every composition."""
+    ref = _connecting_deliver(CONNECTING_STREAM)
+    obs = observable(ref)
+    kinds = [(o[0], o[1]) if o[0] != 'fire' else ('fire', o[1], o[2]) for o in obs]
+    want = [('cb', 'onMqttConnectionMade'), ('fire', 0, 'ok'), ('fire', 1, 'ok'), ('cb', 'onPublish')]
+    if sorted(map(repr, kinds[:2])) != sorted(map(repr, want[:2])) or kinds[2:] != want[2:]:
+        ctx.violation({'kind': 'framing', 'signature': 'whole-packet-delivery-wrong/handshake',
+                       'detail': 'CONNACK, PUBACK, PUBLISH one per chunk from CONNECTING: actions %r, expected %r' % (kinds, want),
+                       'history': [['stream', 'handshake'], ['cuts', [4, 8, 14]]], 'scenario': {'name': 'handshake', 'stream': 'handshake'}})
+    n = sum(len(p) for p in CONNECTING_STREAM)
+    total = 2 ** (n - 1)
+    cnt = 0
+    for k, bad in pool.imap_unordered(_connecting_brute, [(a, min(total, a + 512)) for a in range(0, total, 512)]):
+        cnt += k
+        for cuts in bad[:1]:
+            ctx.violation({'kind': 'framing', 'signature': 'brute-force-differs/handshake',
+                           'detail': 'CONNACK+PUBACK+PUBLISH from CONNECTING cut at %r behaves differently from whole-packet delivery' % (cuts,),
+                           'history': [['stream', 'handshake'], ['cuts', cuts]], 'scenario': {'name': 'handshake', 'stream': 'handshake'}})
+    return cnt
 
 
 def cross_connection(ctx):
@@ -402,8 +462,7 @@ def _run(ctx):
                 'delivery for 3- and 4-byte remaining lengths')
     dps = []
     perms = [('all-types', packets_all()),
-             ('len2', [rc.enc_ack('PUBACK', 1), rc.enc_publish('in/q1', b'p' * 125, 1, False, False, 11), rc.enc_pingresp(),
-                       rc.enc_ack('PUBREC', 3)])]
+             ('len2', LEN2)]
     if not ctx.quick:
         p = packets_all()
         perms.append(('all-types-200B', packets_all(b'p' * 200)))
@@ -447,6 +506,7 @@ def _run(ctx):
         ltasks += [(label, a, min(len(cutsets), a + step)) for a in range(0, len(cutsets), step)]
     n_long = 0
     with mp.get_context('fork').Pool(min(16, os.cpu_count() or 1)) as pool:
+        n_brute += handshake_stream(ctx, pool)
         for name, k, bad in pool.imap_unordered(_brute, tasks):
             n_brute += k
             for cuts in bad[:1]:
@@ -476,6 +536,16 @@ def _run(ctx):
 def replay(rec):
     sc = rec['scenario']
     name = sc['stream']
+    if sc['name'] == 'handshake':
+        data = b''.join(CONNECTING_STREAM)
+        cuts = rec['history'][1][1]
+        ref = _connecting_deliver(CONNECTING_STREAM)
+        w = _connecting_deliver([data[a:b] for a, b in zip([0] + cuts[:-1], cuts)])
+        print(observable(w)); print(observable(ref))
+        if observable(w) != observable(ref) or final_key(w) != final_key(ref) or 'whole-packet' in rec['signature']:
+            print('VIOLATION property=%s replay=%s' % (PROP, rec['_path']))
+            return 1
+        return 0
     if sc['name'] == 'cross':
         class _C2(object):
             executions = 0
@@ -495,7 +565,7 @@ def replay(rec):
             def violation(self, x):
                 self.v.append(x)
         allp = dict(SHORT)
-        allp.update({'all-types': packets_all(), 'len2': [rc.enc_ack('PUBACK', 1), rc.enc_publish('in/q1', b'p' * 125, 1, False, False, 11), rc.enc_pingresp(), rc.enc_ack('PUBREC', 3)]})
+        allp.update({'all-types': packets_all(), 'len2': LEN2})
         allp.update(dict((l, p) for l, p, c in long_cases(True)))
         c = _C()
         check_reference(c, name, allp[name], observable(deliver(allp[name])))
@@ -505,7 +575,7 @@ def replay(rec):
             print('VIOLATION property=%s replay=%s' % (PROP, rec['_path']))
         return 1 if c.v else 0
     if sc['name'] == 'dp':
-        pk = {'all-types': packets_all(), 'len2': [rc.enc_ack('PUBACK', 1), rc.enc_publish('in/q1', b'p' * 125, 1, False, False, 11), rc.enc_pingresp(), rc.enc_ack('PUBREC', 3)], 'all-types-200B': packets_all(b'p' * 200), 'all-types-reversed': list(reversed(packets_all())),
+        pk = {'all-types': packets_all(), 'len2': LEN2, 'all-types-200B': packets_all(b'p' * 200), 'all-types-reversed': list(reversed(packets_all())),
               'all-types-rotated': packets_all()[5:] + packets_all()[:5], 'all-types-async': packets_all()}[name]
     elif sc['name'] == 'brute':
         pk = SHORT[name]
